@@ -17,9 +17,7 @@ Qed.
 
 Lemma sem_compat c e x : conv_compat c e = true -> fits e x -> sem c (c_form e x) = x.
 Proof.
-  unfold conv_compat. intros H Hf. destruct (conv_eqb c e) eqn:E.
-  - apply conv_eqb_eq in E. subst. apply sem_c_form; exact Hf.
-  - destruct c, e; cbn in H; try discriminate. destruct x; cbn in Hf; try contradiction. reflexivity.
+  unfold conv_compat. intros H Hf. apply conv_eqb_eq in H. subst. apply sem_c_form; exact Hf.
 Qed.
 
 (* the C caller's environment for argument values vs: parameter i is bound to the C form of value i *)
